@@ -731,7 +731,8 @@ def work(item, acc: core.Acc, tier):
                 if ref["status"][0] == "err":
                     detail["reference_message"] = ref.get("msg")
             own = own_result_findings(tpl, o)
-            out.append((text, df, detail, findings, own, o["status"]))
+            fh = tuple(core.h(o[f]) for f in FACETS)  # lets the parent compare any two spellings
+            out.append((text, df, detail, findings, own, o["status"], fh))
     finally:
         if sess is not None:
             sess.close()
@@ -789,12 +790,21 @@ def classify(ctx, tpl, cata, results):
         if text in results:
             qs_sens[i] = bool(results[text][0])
     groups = {}
+    groups_ref = {}
     done = set()
     for label, form, qs, text in cata["quote"]:
         if text in done:
             continue
         done.add(text)
         df, detail = results[text][0], results[text][1]
+        if form != "l":
+            # the rest of the statement is in another case: the partner is the same statement without the quotes
+            # (whose own agreement with the all-lower spelling is clause C02.respell's business)
+            partner = R.render(toks, form)
+            df = tuple(f for f, x, y in zip(FACETS, results[partner][3], results[text][3]) if x != y)
+            detail = {"facets": list(df), "partner_sql": partner} if df else None
+            if df:
+                groups_ref[text] = partner
         culprit = next((i for i in qs if qs_sens.get(i)), None)
         if culprit is not None:
             prefix = f"stmt={tpl.kind},name={toks[culprit].text.lower()}"
@@ -804,20 +814,21 @@ def classify(ctx, tpl, cata, results):
             acc.count("quotings_agreeing")
             continue
         groups.setdefault(prefix, []).append((text, label, df, detail))
-    _emit(acc, "C02.quoted", tpl, groups, ref_text)
+    _emit(acc, "C02.quoted", tpl, groups, ref_text, groups_ref)
 
 
-def _emit(acc, clause_root, tpl, groups, ref_text):
+def _emit(acc, clause_root, tpl, groups, ref_text, ref_of=None):
     for prefix in sorted(groups):
         members = groups[prefix]
         facets = sorted({m[2][0] for m in members if m[2]}, key=FACETS.index)
         for text, label, df, detail in members:
             if df:
+                rt = (ref_of or {}).get(text, ref_text)
                 acc.violation(
                     f"{clause_root}.{df[0]}",
                     prefix,
-                    dict(detail, template=tpl.id, spelling=label, sql=text, reference_sql=ref_text),
-                    {"template": tpl.id, "sql": text, "reference_sql": ref_text},
+                    dict(detail, template=tpl.id, spelling=label, sql=text, reference_sql=rt),
+                    {"template": tpl.id, "sql": text, "reference_sql": rt},
                 )
         for f in facets:
             for _text, _label, df, _detail in members:
@@ -851,8 +862,8 @@ def run(ctx: core.Ctx):
     order = {t.id: i for i, t in enumerate(TEMPLATES)}
     res.sort(key=lambda r: (order[r[0][0]], r[0][1][0][0]))  # canonical order, whatever the seed rotation was
     for (tid, _texts), out in res:
-        for text, df, detail, findings, own, status in out:
-            by_tpl.setdefault(tid, {})[text] = (df, detail, status)
+        for text, df, detail, findings, own, status, fh in out:
+            by_tpl.setdefault(tid, {})[text] = (df, detail, status, fh)
             if text != cata[tid]["ref"]:
                 ctx.acc.nontrivial((tid, text))  # an actual comparison: a spelling that differs from the reference
             for surface, cls, failed, det in own:
